@@ -22,6 +22,26 @@ CLAIMS.update({
          "Trusts ztyp view semantics and the X/XType/XView naming convention (checked by instance floors).",
          "DESIGN.md §3 A6-A9, §4 C15"),
 })
+CLAIMS.update({
+ "C09": ("index-unit (absolute vs window-relative) analysis of proto-array + permuted-argument + lockset analysis",
+         "Structural: all node addressing in the proto-array and the wrapper's locking/argument passing are consistent; necessary for head computation to touch the intended nodes before and after pruning. Does not decide GHOST optimality.",
+         "Trusts the NodeIndex type as the absolute unit; the LMD-GHOST selection rule itself is not decided.", "DESIGN.md §3 E1,D4,E2,E3; §4 C09"),
+ "C10": ("lockset re-entrancy analysis + OnPrune bookkeeping/shape rules + permuted-argument check",
+         "Structural: UpdateJustified cannot self-deadlock (no same-receiver re-acquisition on any path), passes checkpoints in order, and OnPrune's per-node bookkeeping is complete and position-correct. Necessary conditions of 'terminates' and 'each pruned once'.",
+         "Prune set = insertion-order prefix (recorded design finding) is not judged against 'exactly the non-descendants'.", "DESIGN.md §3 E3,D4,E1; §4 C10"),
+ "C11": ("index-unit analysis of query paths + bounds-guard shape",
+         "Structural: every graph query reaches nodes through guarded, offset-corrected positions. Necessary for query results to refer to the inserted tree after pruning.",
+         "Agreement with a reference walk is not decided.", "DESIGN.md §3 E1,B2a; §4 C11"),
+ "C16": ("delegation-filter and recursion-progress analysis of PubkeyCache",
+         "Structural: parent delegation is confined to the trusted prefix, recursion makes progress on a fresh child, outcomes (no-op/append/fork/error) are all present, deposit processing guards hits. Necessary conditions of per-history exactness and termination.",
+         "Exactness over arbitrary fork trees is not decided.", "DESIGN.md §3 E6,E7; §4 C16"),
+ "C17": ("CFG lockset dataflow (must/may-held), same-receiver call-graph re-entrancy, check-then-act and lazy-init shape rules",
+         "Structural: classical lock-discipline analysis over every mutex-carrying type in the module; decides absence of unlocked access, lock leaks and self-deadlock on all paths (not schedules sampled).",
+         "Field-level aliasing beyond the receiver is not tracked; linearizability is not decided. Two genuine findings are recorded, not repaired.", "DESIGN.md §3 E2-E5; §4 C17"),
+ "C20": ("constructor/map-initialisation, nil-lookup and lockset rules on the pool package",
+         "Structural: pools cannot panic on a nil map or nil lookup and hold their lock around index access. Necessary conditions of 'never panics'.",
+         "Content-level pool invariants are not decided.", "DESIGN.md §3 B3,B2b,E2; §4 C20"),
+})
 NA = {
 }
 ALL = ["C%02d" % i for i in range(1, 21)]
